@@ -58,10 +58,11 @@ type World struct {
 	flags        map[string]bool
 	gap          uint32
 	// mempool model (C09): pending relevant transactions known to the wallet
-	pending map[wire.Hash]*wire.MsgTx
-	everSeen      map[wire.Hash]*wire.MsgTx
-	c09mode       bool
-	reservedExtra map[wire.OutPoint]bool
+	pending           map[wire.Hash]*wire.MsgTx
+	everSeen          map[wire.Hash]*wire.MsgTx
+	c09mode           bool
+	depositsInMempool bool
+	reservedExtra     map[wire.OutPoint]bool
 	// options
 	allowNullData bool
 	allowStaking  bool
@@ -297,7 +298,7 @@ func (w *World) pickDest(t *rapid.T, height uint64, hasBindingIn bool, budget in
 		tgt := make([]byte, 22)
 		binary.BigEndian.PutUint64(tgt[12:], w.bindCounter)
 		tgt[0] = 0xb1
-		tgt[20] = 0                                            // MASS proof type
+		tgt[20] = 0                                              // MASS proof type
 		tgt[21] = byte(24 + 2*rapid.IntRange(0, 4).Draw(t, "k")) // bit length 24..32
 		return sim.BindingScript(ownerHash(), tgt), 100000000, true
 	}
